@@ -102,8 +102,9 @@ class Interp:
         self.ref = ref                # a fresh world: the only one consulted for applicability decisions
         self.ctx = ctx
         self.steer = steer_k1
-        self.fam = []
-        self.pend = []
+        self.books = [{"fam": [], "pend": []} for _ in worlds]   # derivation bookkeeping per compared world
+        self.fam = self.books[0]["fam"]
+        self.pend = self.books[0]["pend"]
         self.depth = []               # number of stacked pending selections at creation
         self.colstep = []             # created by a column slice with step not in (None, 1)
         self.next_fam = 0
@@ -121,8 +122,10 @@ class Interp:
         flat = np.array([1000 * i + j for i, l in enumerate(lens) for j in range(l)], dtype=np.int64)
         for w in self.all_worlds():
             w.vars.append(RaggedArray(flat.copy(), list(lens)))
-        self.fam.append(self.new_family())
-        self.pend.append(False)
+        f = self.new_family()
+        for b in self.books:
+            b["fam"].append(f)
+            b["pend"].append(False)
         self.depth.append(0)
         self.colstep.append(False)
 
@@ -133,14 +136,22 @@ class Interp:
         return ws
 
     def refresh(self):
-        w0 = self.worlds[0]
-        for k, v in enumerate(w0.vars[:len(self.pend)]):
-            now = not v.is_contigous
-            if self.pend[k] and not now:
-                self.fam[k] = self.new_family()
-                self.depth[k] = 0
-                self.colstep[k] = False
-            self.pend[k] = now
+        for w, b in zip(self.worlds, self.books):
+            for k, v in enumerate(w.vars[:len(b["pend"])]):
+                now = not v.is_contigous
+                if b["pend"][k] and not now:
+                    b["fam"][k] = self.new_family()
+                    if b is self.books[0]:
+                        self.depth[k] = 0
+                        self.colstep[k] = False
+                b["pend"][k] = now
+
+    def k1_trigger(self, v):
+        """a write to var v while, in some compared world, a never-materialised selection over v's buffer is live"""
+        for b in self.books:
+            if not b["pend"][v] and any(b["pend"][j] and b["fam"][j] == b["fam"][v] for j in range(len(b["fam"])) if j != v):
+                return True
+        return False
 
     def nlive(self):
         return len(self.ref.vars)
@@ -341,11 +352,10 @@ class Interp:
             return
         op, v = st[0], st[1]
         writes = op in ("assign", "fill", "maskassign", "assign-from")
-        if writes and self.steer and not self.pend[v]:
-            if any(self.pend[j] and self.fam[j] == self.fam[v] for j in range(len(self.fam)) if j != v):
-                # region of known finding K1: a write to X while a never-materialised selection over X's buffer is live
-                self.ctx.redirected += 1
-                return
+        if writes and self.steer and self.k1_trigger(v):
+            # region of known finding K1: a write to X while a never-materialised selection over X's buffer is live
+            self.ctx.redirected += 1
+            return
         if self.pend[v]:
             self.ctx.label("op-on-pending")
             if self.depth[v] >= 2:
@@ -381,12 +391,12 @@ class Interp:
             for w, o in outcomes:
                 w.add(o[1], alias)
             self.refresh()
-            child_pending = not self.worlds[0].vars[-1].is_contigous
-            if alias or child_pending:
-                self.fam.append(self.fam[v])
-            else:
-                self.fam.append(self.new_family())
-            self.pend.append(child_pending)
+            nf = self.new_family()
+            for w, b in zip(self.worlds, self.books):
+                cp = not w.vars[-1].is_contigous
+                b["fam"].append(b["fam"][v] if (alias or cp) else nf)
+                b["pend"].append(cp)
+            child_pending = self.pend[-1]
             self.depth.append((self.depth[v] + 1) if child_pending and op == "index" else 0)
             cs = st[3] if op == "index" else None
             self.colstep.append(bool(child_pending and ((cs is not None and cs[0] == "s" and cs[3] not in (None, 1)) or self.colstep[v])))
